@@ -1,7 +1,7 @@
 (* C10 — store-rewriting commands never break a passing store; init/regenerate
    exemptions make one. *)
 Require Import Base Extracted Criteria Search AuditGraph DepGraph Resolve Update Commands.
-Require Import SearchProofs UpdateProofs UpdateKeep.
+Require Import SearchProofs ResolveProofs UpdateProofs UpdateKeep EndToEnd.
 Local Open Scope N_scope.
 
 (* In RegenerateExemptions mode (init, regenerate exemptions) the search for a
@@ -44,11 +44,51 @@ Proof.
   cbn. rewrite Hf, Hv. destruct (negb _ && _); reflexivity.
 Qed.
 
-(* NOT YET PROVED in this revision (kept visible): vets inp s -> vets inp (k inp s)
-   for k in {cmd_prune, cmd_regenerate_imports, check's update, clean-ups}, and
-   conclusion (k inp s) is never FailForVet for k in {cmd_init, cmd_regenerate_exemptions}.
-   Exercised on every history of the correspondence run with the real commands. *)
+(* ---- the end-to-end statements ----
+   [store_ok inp s]: what a loaded store value satisfies — acyclic criteria table, exemption
+   criteria defined (Store::validate, C15), an entry per crate name of the graph; its executable
+   form [store_okb] is evaluated on every store the real commands load in the correspondence run.
+   [vets inp s]: the conclusion of [resolve inp s] is Success. *)
+
+(* a store that vets still vets after prune (all 8 flag combinations), regenerate imports, and the
+   clean-up updates that follow certify, trust and import: every edge of every chosen certifying
+   path has a counterpart in the written store, and no violation conflict appears *)
+Theorem C10_prune_preserves : forall inp s a b c, store_ok inp s -> vets inp s -> vets inp (cmd_prune a b c inp s).
+Proof. exact prune_preserves. Qed.
+Theorem C10_regenerate_imports_preserves : forall inp s, store_ok inp s -> vets inp s -> vets inp (cmd_regenerate_imports inp s).
+Proof. exact regenerate_imports_preserves. Qed.
+Theorem C10_certify_cleanup_preserves : forall inp s target, store_ok inp s -> vets inp s -> vets inp (cleanup_certify target inp s).
+Proof. exact certify_cleanup_preserves. Qed.
+Theorem C10_trust_cleanup_preserves : forall inp s target, store_ok inp s -> vets inp s -> vets inp (cleanup_trust target inp s).
+Proof. exact trust_cleanup_preserves. Qed.
+Theorem C10_import_cleanup_preserves : forall inp s, store_ok inp s -> vets inp s -> vets inp (update_store inp s (fun _ => mode_import)).
+Proof. exact import_cleanup_preserves. Qed.
+(* in general: ANY update whose searches are not in RegenerateExemptions mode *)
+Theorem C10_update_preserves_vetting : forall inp s mode,
+  store_ok inp s -> (forall name, um_search (mode name) <> RegenerateExemptions) ->
+  vets inp s -> vets inp (update_store inp s mode).
+Proof. exact update_preserves_vetting. Qed.
+
+(* init / regenerate exemptions: whatever the store held, afterwards every required criterion of
+   every third-party crate whose audit graph has no violation conflict has a certifying chain
+   (so the only way the result can fail to vet is a violation conflict) *)
+Theorem C10_init_and_regenerate_certify : forall inp s i p ag,
+  store_ok inp s ->
+  nth_error (g_pkgs (depgraph_new inp)) i = Some p -> pk_third_party p = true ->
+  build (st_criteria s) (store_for s (pk_name p)) = inl ag ->
+  forall c, c < N.of_nat (ct_len (st_criteria s)) ->
+    cs_has c (nth i (resolve_requirements (st_criteria s) (depgraph_new inp)) cs_empty) = true ->
+  certified (st_criteria s) (store_for (cmd_regenerate_exemptions inp s) (pk_name p)) c (pk_version p) /\
+  certified (st_criteria s) (store_for (cmd_init inp s) (pk_name p)) c (pk_version p).
+Proof. exact regenerate_exemptions_certifies. Qed.
 
 Print Assumptions C10_regenerate_search_never_fails.
 Print Assumptions C10_prune_keeps_required_entries.
 Print Assumptions C10_failing_crate_keeps_stored_imports.
+Print Assumptions C10_prune_preserves.
+Print Assumptions C10_regenerate_imports_preserves.
+Print Assumptions C10_certify_cleanup_preserves.
+Print Assumptions C10_trust_cleanup_preserves.
+Print Assumptions C10_import_cleanup_preserves.
+Print Assumptions C10_update_preserves_vetting.
+Print Assumptions C10_init_and_regenerate_certify.
